@@ -59,7 +59,7 @@ CLAIMS = {
          "Whether a bounding constant is small enough is not judged (only that a bound exists); taint is field-based and flow-insensitive across functions.",
          "DESIGN.md §4 C18"),
  "C02": ("byte-layout extraction (abstract interpretation of encoder/decoder over go/ssa: field x significance x mask per byte) + ordering of CRC computation against stores + width check on geometry conversions",
-         "Decides structural necessary conditions of the GPT/MBR round trip: for the GPT header, GPT entry and MBR entry every byte the parser maps to a field is written by the encoder from the same field with the same significance (and vice versa); the header CRC is computed over [0:92] after every other store into that range and stored at [16:20], the reader verifies the same range, the array CRC is computed from the array encoder's output; narrowing conversions of geometry into on-disk fields are range-tested or saturated (one defect repaired: protective MBR size); the error discipline of Table.Write is shared with C09. Does not decide numeric equality of a written and re-read table, UTF-16 name handling, or CHS values.",
+         "Decides structural necessary conditions of the GPT/MBR round trip: for the GPT header, GPT entry and MBR entry every byte the parser maps to a field is written by the encoder from the same field with the same significance (and vice versa); the header CRC is computed over [0:92] after every other store into that range and stored at [16:20], the reader verifies the same range, the array CRC is computed from the array encoder's output; narrowing conversions of geometry into on-disk fields are range-tested or saturated (one defect repaired: protective MBR size); a sector count is scaled only by the table's own sector size; a disk GUID drawn while encoding is kept so that both header copies carry one identity (one defect repaired); partition names go through the utf16 package on both sides; the error discipline of Table.Write is shared with C09. Does not decide numeric equality of a written and re-read table, UTF-16 name handling, or CHS values.",
          "The extractor models constant offsets, binary.*Endian, copy, append, shifts/masks and helper inlining; bytes it cannot resolve are counted as unresolved, and each pair has a floor on agreeing bytes (exit 2 if the extractor stops understanding a pair).",
          "DESIGN.md §4 C02"),
  "C06": ("byte-layout extraction for the volume descriptors + provenance of device I/O offsets/receivers (backend.Sub wrapping)",
@@ -67,11 +67,11 @@ CLAIMS = {
          "The directory-record pair is not resolved by the extractor (encoder returns record lists) and is not claimed.",
          "DESIGN.md §4 C06"),
  "C07": ("byte-layout extraction for 14 squashfs structures + switch exhaustiveness over type constants + provenance of cache results",
-         "Decides structural necessary conditions of the squashfs round trip: superblock, inode header, 11 inode bodies, directory header/entry and fragment entry encoders and parsers agree byte by byte; parseInodeBody has a case for every inodeType constant and newCompressor for every compression constant; lru.get returns only what fetch produced (results cannot depend on cache size). Block/fragment packing, compressor behaviour, directory ordering and Finalize cursor arithmetic are not covered.",
+         "Decides structural necessary conditions of the squashfs round trip: superblock, inode header, 11 inode bodies, directory header/entry and fragment entry encoders and parsers agree byte by byte; parseInodeBody has a case for every inodeType constant and newCompressor for every compression constant; lru.get returns only what fetch produced (results cannot depend on cache size) and lru.pop is only called behind a non-emptiness test (cache size 0). Block/fragment packing, compressor behaviour, directory ordering and Finalize cursor arithmetic are not covered.",
          "The extended device inode pair is unresolved (floor 0) and contributes nothing.",
          "DESIGN.md §4 C07"),
  "C19": ("byte-layout extraction incl. bit masks and split fields + frame conditions (set of stored fields per mutator) + switch exhaustiveness of type tables",
-         "Decides structural necessary conditions of metadata preservation: ext4 inode (split uid/gid/size halves, seconds+extra timestamp pairs), ext4 directory entry, FAT 8.3 record (attribute/case bits with masks, date/time words, split cluster) and squashfs inode header encoders and parsers agree byte by byte; ext4 Chmod/Chown/Chtimes and the FAT attribute setters store only their own fields; the file-type-to-mode tables of ext4 and squashfs are total. Representable ranges, the symlink inline boundary and host metadata collection are not covered.",
+         "Decides structural necessary conditions of metadata preservation: ext4 inode (split uid/gid/size halves, seconds+extra timestamp pairs), ext4 directory entry, FAT 8.3 record (attribute/case bits with masks, date/time words, split cluster) and squashfs inode header encoders and parsers agree byte by byte; ext4 Chmod/Chown/Chtimes and the FAT attribute setters store only their own fields; the file-type-to-mode tables of ext4 and squashfs are total and every comparison of a mode with an os.Mode* type constant looks at type bits only; the packed DOS date/time words are decoded with the shifts and field widths the encoder uses. Representable ranges, the symlink inline boundary and host metadata collection are not covered.",
          "Frame conditions are over field stores reached through in-package callees up to depth 4, excluding write-back helpers.",
          "DESIGN.md §4 C19"),
  "C04": ("typestate (dirty/flush) over go/ssa CFGs with callee summaries + frame conditions (stored-field sets) + linear-form comparison of bitmap indices + nil-guard dominance + loop-coverage of block writes",
@@ -131,7 +131,7 @@ def main():
         }],
         "checks": checks,
         "not_applicable": na,
-        "notes": "All checks are static analysis of /repo's current working tree (exit 0 held, 1 violation, 2 analysis could not run). Thorough = quick + other GOOS/GOARCH configurations + seeded-edit self-test of the checker on scratch copies under /var/tmp (removed afterwards).",
+        "notes": "All checks are static analysis of /repo's current working tree (exit 0 held; 1 violation, with a VIOLATION line; 2 the analysis could not run or an obligation is UNDECIDED because the code has a shape a rule cannot interpret - no violation is claimed then). Thorough = quick + other GOOS/GOARCH configurations + seeded-edit self-test of the checker on scratch copies under /var/tmp (removed afterwards).",
     }
     json.dump(m, open(os.path.join(HERE, "MANIFEST.json"), "w"), indent=1)
     print("MANIFEST.json: %d checks, %d not_applicable" % (len(checks), len(na)))
